@@ -123,6 +123,37 @@ def rule_mem_file_siblings(ctx):
         # which pair under which condition
         ok = pair_selection(b, o, {"p_vaddr": 1, "p_memsz": 1, "p_offset": 0, "p_filesz": 0})
         ctx.check(ok, R, ("read_segment", "selection"), b.where(0), "memory addresses are used iff the module is process memory, file offsets otherwise", "field selection does not follow is_process_memory()")
+    # the same discipline everywhere a SEGMENT's location is used (program headers, unlike section headers, describe what the loader
+    # maps, so a segment of a module in process memory is at p_vaddr, not at its file offset): outside read_segment, every read of
+    # p_offset / p_filesz is on paths where is_process_memory() is false, and p_vaddr / p_memsz where it is true
+    WANT = {"p_vaddr": 1, "p_memsz": 1, "p_offset": 0, "p_filesz": 0}
+    n_sites = 0
+    for body in ctx.prog.bodies:
+        if not body.short.startswith(MR + "::") or body.short.endswith("::read_segment"):
+            continue
+        bo = None
+        for bi, blk in enumerate(body.blocks):
+            if blk["cleanup"]:
+                continue
+            for si, st in enumerate(blk["stmts"]):
+                if st["k"] != "assign" or st["r"]["k"] not in ("use", "cast", "agg"):
+                    continue
+                ops = [st["r"]["o"]] if st["r"]["k"] in ("use", "cast") else st["r"]["ops"]
+                for op in ops:
+                    if op.get("k") not in ("copy", "move"):
+                        continue
+                    for e in op["p"]["proj"]:
+                        if e["k"] == "field" and e["n"] in ("p_offset", "p_vaddr") and "ProgramHeader" in (e.get("adt") or ""):
+                            n_sites += 1
+                            bo = bo or Origin(body)
+                            dnf = conditions(body, bi, origin=bo, relevant=lambda a: a[0] == "call" and a[1].endswith("is_process_memory"))
+                            okc = bool(dnf) and all(any(v == WANT[e["n"]] for (_, v) in c) for c in dnf)
+                            fn = body.short.split("::{closure")[0].split("::")[-1]
+                            ctx.check(okc, R, ("segment-location", fn, e["n"]), body.where(bi, si),
+                                      "%s reads %s only when the module is %s" % (fn, e["n"], "process memory" if WANT[e["n"]] else "a file image"),
+                                      "%s uses a segment's %s whatever kind of memory the module is read from (read_segment uses p_vaddr for process memory): for a loaded "
+                                      "module whose segment is not mapped at its file offset the bytes are read from the wrong place" % (fn, e["n"]))
+    ctx.ok(R, ("segment-location", "sites"), None, "uses of a segment's location outside read_segment: %d" % n_sites, nontrivial=False)
     b = ctx.body(R, MR + "::ModuleReader::section_offset")
     if b is not None:
         o = Origin(b)
@@ -478,7 +509,43 @@ def rule_dynamic_entries(ctx, R="C14/dynamic-entries"):
                       "soname_from_sections hands on offset %s under %s, size %s" % (show(off)[:50], [[(show(q)[:40], v) for q, v in c] for c in (dnf or [])][:1], show(sz)[:40]))
 
 
+def rule_header_context(ctx, R="C14/header-context"):
+    """everything after the header is decoded with the class and byte order the image declares: ModuleReader::new reads the header
+    at offset 0 with the size of the larger (64-bit) header, and builds its context from that header's own e_ident (container and
+    endianness) — never from the host."""
+    from engine.summ import return_origins
+    outs = return_origins(ctx.prog, MR + "::ModuleReader::new")
+    b = ctx.body(R, MR + "::ModuleReader::new")
+    if outs is None or b is None:
+        return
+    n = 0
+    for e in outs:
+        e = strip(e)
+        if e[0] != "agg":
+            continue
+        n += 1
+        f = dict(e[3])
+        hd = strip(f.get("header", ("?",)))
+        okh = hd[0] == "call" and hd[1].endswith("parse_header")
+        rd = strip(hd[2][0]) if okh else ("?",)
+        okr = rd[0] == "call" and rd[1].endswith("ProcessMemory::read") and core(rd[2][1]) == ("const", 0, "u64")
+        sz = core(rd[2][2]) if okr else ("?",)
+        oks = sz[0] == "call" and sz[1].endswith("Header::size") and any(q[0] == "agg" and q[2] == "Big" for q in walk(sz))
+        ctx.check(okh and okr and oks, R, "header-read", b.where(0), "the header is parsed from the bytes at offset 0, read with the size of a 64-bit header",
+                  "the ELF header is not parse_header(read(0, Header::size(Big))): %s" % show(hd)[:120])
+        cx = strip(f.get("context", ("?",)))
+        okc = cx[0] == "call" and cx[1].endswith("Ctx::new") and len(cx[2]) == 2
+        if okc:
+            c0, c1 = strip(cx[2][0]), strip(cx[2][1])
+            okc = c0[0] == "call" and c0[1].endswith("container") and nosite(strip(c0[2][0])) == nosite(hd) and c1[0] == "call" and c1[1].endswith("endianness") and nosite(strip(c1[2][0])) == nosite(hd)
+        ctx.check(okc, R, "context-from-header", b.where(0), "the decoding context is (header.container(), header.endianness()) of that same header",
+                  "the decoding context is not taken from the parsed header: %s" % show(cx)[:140])
+        ctx.check(f.get("module_memory") == ("param", 1), R, "memory", b.where(0), "the reader keeps the memory it was given", "module_memory <- %s" % show(f.get("module_memory"))[:60])
+    ctx.floor(R, "ModuleReader constructions", n, 1)
+
+
 def run(ctx):
+    rule_header_context(ctx)
     rule_dynamic_entries(ctx)
     rule_strtab_window(ctx)
     from rules import preds
